@@ -539,6 +539,21 @@ def x_expanduser(ex, st, args, kwargs, cx):
 trusted("os.path.expanduser", "a deterministic total function of its argument (uninterpreted)")
 
 
+def x_pathfun(name):
+    """os.path.expandvars / abspath / normpath / realpath: each a deterministic total function of its argument
+    (uninterpreted, unrelated to the others)"""
+    def f(ex, st, args, kwargs, cx):
+        if len(args) != 1 or kwargs:
+            raise Unsupported("os.path.%s form" % name)
+        t = ex.w.fun("path_" + name, "str", "str")(ex.o.s(args[0]))
+        st.terms.append(("str", t))
+        yield st, ex.o.str_(t)
+    return f
+
+
+trusted("os.path.expandvars/abspath/normpath/realpath", "deterministic total functions of their argument (uninterpreted)")
+
+
 def x_urandom(ex, st, args, kwargs, cx):
     w, o = ex.w, ex.o
     f = w.fun("rand_bytes", z3.IntSort(), ByteSeq)
@@ -620,6 +635,8 @@ def x_warn(ex, st, args, kwargs, cx):
 
 
 EXTERNALS = {
+    "os.path.expandvars": x_pathfun("expandvars"), "os.path.abspath": x_pathfun("abspath"), "os.path.normpath": x_pathfun("normpath"),
+    "os.path.realpath": x_pathfun("realpath"),
     "os.path.expanduser": x_expanduser, "os.urandom": x_urandom, "os.environ.get": x_environ_get,
     "base64.b64encode": x_b64encode, "base64.b64decode": x_b64decode, "warnings.warn": x_warn,
 }
